@@ -7,6 +7,7 @@ pub mod decode;
 pub mod msggen;
 pub mod name;
 pub mod text;
+pub mod truth;
 
 pub fn gen(stream: &str, r: &mut Rng, index: u64) -> String {
     match stream {
@@ -20,6 +21,8 @@ pub fn gen(stream: &str, r: &mut Rng, index: u64) -> String {
         "iter" => decode::gen_iter(r, index),
         "rrset" => decode::gen_rrset(r, index),
         "nameeq" => decode::gen_nameeq(r, index),
+        "truth" => truth::gen_truth(r, index),
+        "seekhist" => truth::gen_seekhist(r, index),
         "text" | "cmp" | "query" | "roundtrip" => text::gen(stream, r, index),
         "c11" | "c12" | "c13" | "c14" | "c15" | "c16" => client::gen(stream, r, index),
         _ => panic!("unknown stream {}", stream),
@@ -40,6 +43,8 @@ pub fn eval(line: &str) -> String {
         Some("iter") => decode::eval_iter(&toks),
         Some("rrset") => decode::eval_rrset(&toks),
         Some("nameeq") => decode::eval_nameeq(&toks),
+        Some("truth") => truth::eval_truth(&toks),
+        Some("seekhist") => truth::eval_seekhist(&toks),
         Some("check") | Some("checklabel") | Some("parse") | Some("wname") | Some("cmp") | Some("eqstr")
         | Some("query") | Some("rt") | Some("enc") => text::eval(&toks),
         _ => "bad-request".to_string(),
